@@ -65,15 +65,14 @@ def subFlags (a b : BitVec 8) (c : Bool) : BitVec 8 :=
 /-- The eight accumulator operations ADD ADC SUB SBC AND XOR OR CP:
 `(new A, new F)` from A, the operand and the carry flag. -/
 def alu8 (op : BitVec 3) (a b : BitVec 8) (cf : Bool) : BitVec 8 × BitVec 8 :=
-  match op with
-  | 0 => (a + b, addFlags a b false)
-  | 1 => (a + b + cin8 cf, addFlags a b cf)
-  | 2 => (a - b, subFlags a b false)
-  | 3 => (a - b - cin8 cf, subFlags a b cf)
-  | 4 => (a &&& b, sz53p (a &&& b) ||| FH)
-  | 5 => (a ^^^ b, sz53p (a ^^^ b))
-  | 6 => (a ||| b, sz53p (a ||| b))
-  | _ => (a, (subFlags a b false &&& 0xD7) ||| (b &&& 0x28))
+  if op = 0 then (a + b, addFlags a b false)
+  else if op = 1 then (a + b + cin8 cf, addFlags a b cf)
+  else if op = 2 then (a - b, subFlags a b false)
+  else if op = 3 then (a - b - cin8 cf, subFlags a b cf)
+  else if op = 4 then (a &&& b, sz53p (a &&& b) ||| FH)
+  else if op = 5 then (a ^^^ b, sz53p (a ^^^ b))
+  else if op = 6 then (a ||| b, sz53p (a ||| b))
+  else (a, (subFlags a b false &&& 0xD7) ||| (b &&& 0x28))
 
 /-- INC: carry kept, the rest as `a + 1` -/
 def inc8 (x f : BitVec 8) : BitVec 8 × BitVec 8 :=
@@ -131,15 +130,14 @@ def daa (a f : BitVec 8) : BitVec 8 × BitVec 8 :=
 /-- CB-page rotates and shifts RLC RRC RL RR SLA SRA SLL SRL: `(result, F)` -/
 def rot (k : BitVec 3) (x : BitVec 8) (cf : Bool) : BitVec 8 × BitVec 8 :=
   let r : BitVec 8 :=
-    match k with
-    | 0 => x.rotateLeft 1
-    | 1 => x.rotateRight 1
-    | 2 => (x <<< 1) ||| cin8 cf
-    | 3 => (x >>> 1) ||| flag cf 0x80
-    | 4 => x <<< 1
-    | 5 => (x >>> 1) ||| (x &&& 0x80)
-    | 6 => (x <<< 1) ||| 1
-    | _ => x >>> 1
+    if k = 0 then x.rotateLeft 1
+    else if k = 1 then x.rotateRight 1
+    else if k = 2 then (x <<< 1) ||| cin8 cf
+    else if k = 3 then (x >>> 1) ||| flag cf 0x80
+    else if k = 4 then x <<< 1
+    else if k = 5 then (x >>> 1) ||| (x &&& 0x80)
+    else if k = 6 then (x <<< 1) ||| 1
+    else x >>> 1
   let c := if k.getLsbD 0 then x.getLsbD 0 else x.getLsbD 7
   (r, flag c FC ||| sz53p r)
 
@@ -147,11 +145,10 @@ def rot (k : BitVec 3) (x : BitVec 8) (cf : Bool) : BitVec 8 × BitVec 8 :=
 def rotA (k : BitVec 2) (a f : BitVec 8) : BitVec 8 × BitVec 8 :=
   let cf := tst f FC
   let r : BitVec 8 :=
-    match k with
-    | 0 => a.rotateLeft 1
-    | 1 => a.rotateRight 1
-    | 2 => (a <<< 1) ||| cin8 cf
-    | _ => (a >>> 1) ||| flag cf 0x80
+    if k = 0 then a.rotateLeft 1
+    else if k = 1 then a.rotateRight 1
+    else if k = 2 then (a <<< 1) ||| cin8 cf
+    else (a >>> 1) ||| flag cf 0x80
   let c := if k.getLsbD 0 then a.getLsbD 0 else a.getLsbD 7
   (r, (f &&& 0xC4) ||| flag c FC ||| (r &&& 0x28))
 
